@@ -85,7 +85,7 @@ def _case(draw):
     q = draw(st.integers(0, qmax))
     pos = sorted(rng.choice(m, size=q, replace=False).tolist())
     J = H.copy()
-    mag_e = draw(st.integers(0, 12))
+    mag_e = draw(st.sampled_from(list(range(13)) * 2 + [22, 25, 28]))  # up to 1e31 x: squared distances overflow float32
     mode = draw(st.sampled_from(["random", "plus", "minus", "copies", "equal", "mixed", "colwise"]))
     for idx, p in enumerate(pos):
         mag = 10.0**mag_e * sigma
@@ -119,7 +119,7 @@ def _case(draw):
 
 def parts(tier):
     n = 10_000 if tier == "quick" else 300_000
-    return [Part("generated", "given", n=n, strategy=lambda: widened(_case(), light=True))]
+    return [Part("generated", "given", n=n, strategy=lambda: widened(_case(), light=True, zero_only=True))]
 
 
 def run_case(case) -> Outcome:
